@@ -501,6 +501,17 @@ def rangeAlias (P : Project) : Bool :=
   ds.any (fun a => isPou a.1 && ds.any (fun b => a.2.file != b.2.file && a.2.start == b.2.start && a.2.stop == b.2.stop &&
     eqv a.1.name b.1.name))
 
+/-- Number of ordered pairs of same-named VARIABLE / parameter declarations of different files that sit at
+the same byte range (template twins).  The analysis (trust-hir, not rename) then drops the
+`ImplicitConversion` warning of assignments to such a variable in both files; a rename that changes
+the length of an identifier in front of one of them ends the coincidence and the warnings appear (or
+the reverse).  The check tolerates exactly that diagnostic when this number changes. -/
+def varAlias (P : Project) : Nat :=
+  let ds := (layout P).filter (fun p => p.1.kind == .decl &&
+    (match p.1.link.bind (declById P) with | some c => isVarLike c.kind | none => false))
+  (ds.map (fun a => (ds.filter (fun b => a.2.file != b.2.file && a.2.start == b.2.start && a.2.stop == b.2.stop &&
+    eqv a.1.name b.1.name)).length)).sum
+
 /-- A struct-field rename searches member accesses of every file by comparing raw TypeIds that belong
 to different per-file symbol tables (`find_references_to_field_in_context`): a member access of the
 same name on another type may be rewritten too.  The model does not predict that; the region is:
